@@ -34,43 +34,50 @@ Definition rmw_operand (e : exprtype) : bool :=
 
 Theorem asm_sel_legal : forall sch m e high m' sg em,
   data_mnemonic m = true -> data_operand e = true ->
+  expr_wf e ->
   asm_sel sch m e high = AEmit m' sg em ->
   (AsmSel.is_st m = true -> shape_of (operand_of (e_op em)) <> ShImm) ->
-  resolve m' (shape_of (operand_of (e_op em))) (popnd_zp e) <> None.
+  resolve m' (shape_of (operand_of (e_op em))) (popnd_zp e (e_op em)) <> None.
 Proof.
-  intros sch m e high m' sg em D O H St.
-  destruct e as [ | v | s | [name ty c sgn mm sz] eight off | [name ty c sgn mm sz] | [name ty c sgn mm sz] | s | l ].
+  intros sch m e high m' sg em D O W H St.
+  destruct e as [ | v | s | v eight off | v | v | s | l ].
   - discriminate O.
   - (* Immediate *) cbn in H. inv_emit H. destruct m; try discriminate D.
     all: cbn in St; cbn.
     all: first [ discriminate | (exfalso; apply St; reflexivity) ].
   - (* Tmp *) cbn in H. inv_emit H. destruct m; try discriminate D.
     all: cbn; discriminate.
-  - (* Absolute *)
-    unfold asm_sel in H; cbn [v_type v_mem v_const v_signed v_name v_size is_zp] in H.
-    destruct ty, mm, c, eight, high; cbn in H.
+  - (* Absolute: an encoding exists wherever the operand is *)
+    set (zp := popnd_zp _ _); clearbody zp.
+    unfold asm_sel in H; cbv zeta in H.
+    destruct (v_type v), (is_zp v), (v_const v), eight, high; cbn -[port_offset Z.add Z.ltb] in H.
     all: try discriminate H.
+    all: try (destruct (v_addr v) as [a|]; [destruct (255 <? _)%Z in H|]; cbn [negb] in H).
     all: inv_emit H.
     all: destruct m; try discriminate D.
-    all: cbn in St; cbn.
+    all: destruct zp; cbn -[port_offset] in St; cbn -[port_offset].
     all: first [ discriminate | (exfalso; apply St; reflexivity) ].
-  - (* AbsoluteX *)
-    unfold asm_sel in H; cbn [v_type v_mem v_const v_signed v_name v_size is_zp] in H.
-    destruct (sz =? 1)%Z; destruct ty, mm, c, high; cbn in H.
+  - (* AbsoluteX: the class decides, known address or not *)
+    unfold expr_wf in W; cbn [expr_var] in W.
+    rewrite (resolve_absx_class _ _ _ _ _ _ _ W H).
+    unfold asm_sel in H; cbv zeta in H.
+    destruct (v_size v =? 1)%Z; destruct (v_type v), (is_zp v), (v_const v), high; cbn -[port_offset] in H.
     all: try discriminate H.
-    all: destruct m; try discriminate D; cbn in H.
+    all: destruct m; try discriminate D; cbn -[port_offset] in H.
     all: try discriminate H.
     all: inv_emit H.
-    all: cbn in St; cbn.
+    all: cbn -[port_offset] in St; cbn -[port_offset].
     all: first [ discriminate | (exfalso; apply St; reflexivity) ].
   - (* AbsoluteY *)
-    unfold asm_sel in H; cbn [v_type v_mem v_const v_signed v_name v_size is_zp] in H.
-    destruct (sz =? 1)%Z; destruct ty, mm, c, high; cbn in H.
+    unfold expr_wf in W; cbn [expr_var] in W.
+    rewrite (resolve_absy_class _ _ _ _ _ _ _ W H).
+    unfold asm_sel in H; cbv zeta in H.
+    destruct (v_size v =? 1)%Z; destruct (v_type v), (is_zp v), (v_const v), high; cbn -[port_offset] in H.
     all: try discriminate H.
-    all: destruct m; try discriminate D; cbn in H.
+    all: destruct m; try discriminate D; cbn -[port_offset] in H.
     all: try discriminate H.
     all: inv_emit H.
-    all: cbn in St; cbn.
+    all: cbn -[port_offset] in St; cbn -[port_offset].
     all: first [ discriminate | (exfalso; apply St; reflexivity) ].
   - discriminate O.
   - discriminate O.
@@ -80,11 +87,11 @@ Print Assumptions asm_sel_legal.
 (** the store hypothesis is needed: [asm()] emits [STA #0] for the high byte of an 8-bit
     variable, and the 6502 has no immediate store *)
 Example asm_sel_store_imm_unencodable :
-  let v := mkVar "v" VChar false false MZeropage 1 in
+  let v := mkVar "v" VChar false false MZeropage 1 None in
   exists em,
     asm_sel SOther STA (EAbsolute v true 0) true = AEmit STA false em /\
     e_op em = PNum 0 /\
-    resolve STA (shape_of (operand_of (e_op em))) (popnd_zp (EAbsolute v true 0)) = None.
+    resolve STA (shape_of (operand_of (e_op em))) (popnd_zp (EAbsolute v true 0) (e_op em)) = None.
 Proof. vm_compute. eexists. repeat split. Qed.
 Print Assumptions asm_sel_store_imm_unencodable.
 
@@ -112,25 +119,26 @@ Theorem asm_sel_rmw_same_mnemonic : forall sch m e high m' sg em,
   asm_sel sch m e high = AEmit m' sg em -> m' = m.
 Proof.
   intros sch m e high m' sg em M H.
-  destruct e as [ | v | s | [name ty c sgn mm sz] eight off | [name ty c sgn mm sz] | [name ty c sgn mm sz] | s | l ].
+  destruct e as [ | v | s | v eight off | v | v | s | l ].
   - cbn in H. inv_emit H. reflexivity.
   - cbn in H. inv_emit H. reflexivity.
   - cbn in H. inv_emit H. reflexivity.
-  - unfold asm_sel in H; cbn [v_type v_mem v_const v_signed v_name v_size is_zp] in H.
-    destruct ty, mm, c, eight, high; cbn in H.
+  - unfold asm_sel in H; cbv zeta in H.
+    destruct (v_type v), (is_zp v), (v_const v), eight, high; cbn -[port_offset Z.add Z.ltb] in H.
     all: try discriminate H.
+    all: try (destruct (v_addr v) as [a|]; [destruct (255 <? _)%Z in H|]; cbn [negb] in H).
     all: inv_emit H.
     all: reflexivity.
-  - unfold asm_sel in H; cbn [v_type v_mem v_const v_signed v_name v_size is_zp] in H.
-    destruct (sz =? 1)%Z; destruct ty, mm, c, high; cbn in H.
+  - unfold asm_sel in H; cbv zeta in H.
+    destruct (v_size v =? 1)%Z; destruct (v_type v), (is_zp v), (v_const v), high; cbn -[port_offset] in H.
     all: try discriminate H.
-    all: destruct m; try discriminate M; cbn in H.
+    all: destruct m; try discriminate M; cbn -[port_offset] in H.
     all: inv_emit H.
     all: reflexivity.
-  - unfold asm_sel in H; cbn [v_type v_mem v_const v_signed v_name v_size is_zp] in H.
-    destruct (sz =? 1)%Z; destruct ty, mm, c, high; cbn in H.
+  - unfold asm_sel in H; cbv zeta in H.
+    destruct (v_size v =? 1)%Z; destruct (v_type v), (is_zp v), (v_const v), high; cbn -[port_offset] in H.
     all: try discriminate H.
-    all: destruct m; try discriminate M; cbn in H.
+    all: destruct m; try discriminate M; cbn -[port_offset] in H.
     all: try discriminate H.
     all: inv_emit H.
     all: reflexivity.
@@ -142,54 +150,6 @@ Proof.
 Qed.
 Print Assumptions asm_sel_rmw_same_mnemonic.
 
-(** with a temporary, a plain variable or an X-indexed variable, the emitted operand of a
-    read-modify-write mnemonic has an encoding unless it degenerated to an immediate *)
-Theorem asm_sel_legal_rmw : forall sch m e high m' sg em,
-  rmw_mnemonic m = true -> rmw_operand e = true ->
-  asm_sel sch m e high = AEmit m' sg em ->
-  shape_of (operand_of (e_op em)) <> ShImm ->
-  resolve m' (shape_of (operand_of (e_op em))) (popnd_zp e) <> None.
-Proof.
-  intros sch m e high m' sg em M O H Sh.
-  destruct e as [ | v | s | [name ty c sgn mm sz] eight off | [name ty c sgn mm sz] | [name ty c sgn mm sz] | s | l ].
-  - discriminate O.
-  - discriminate O.
-  - (* Tmp *) cbn in H. inv_emit H. destruct m; try discriminate M.
-    all: cbn; discriminate.
-  - (* Absolute *)
-    unfold asm_sel in H; cbn [v_type v_mem v_const v_signed v_name v_size is_zp] in H.
-    destruct ty, mm, c, eight, high; cbn in H.
-    all: try discriminate H.
-    all: inv_emit H.
-    all: destruct m; try discriminate M.
-    all: cbn in Sh; cbn.
-    all: first [ discriminate | (exfalso; apply Sh; reflexivity) ].
-  - (* AbsoluteX *)
-    unfold asm_sel in H; cbn [v_type v_mem v_const v_signed v_name v_size is_zp] in H.
-    destruct (sz =? 1)%Z; destruct ty, mm, c, high; cbn in H.
-    all: try discriminate H.
-    all: destruct m; try discriminate M; cbn in H.
-    all: try discriminate H.
-    all: inv_emit H.
-    all: cbn in Sh; cbn.
-    all: first [ discriminate | (exfalso; apply Sh; reflexivity) ].
-  - discriminate O.
-  - discriminate O.
-  - discriminate O.
-Qed.
-Print Assumptions asm_sel_legal_rmw.
-
-(** the accumulator form: shifts and rotates with no operand are encodable, INC/DEC are not *)
-Theorem asm_sel_legal_shift_acc : forall sch m high,
-  shift_mnemonic m = true ->
-  exists em, asm_sel sch m ENothing high = AEmit m false em /\
-             resolve m (shape_of (operand_of (e_op em))) (popnd_zp ENothing) = Some Acc.
-Proof.
-  intros sch m high M. destruct m; try discriminate M.
-  all: eexists; split; reflexivity.
-Qed.
-Print Assumptions asm_sel_legal_shift_acc.
-
 (** the whole picture: for a read-modify-write mnemonic, what [asm()] emits is encodable exactly
     when the emitted operand is a plain or X-indexed memory operand, a label, or nothing for a
     shift.  Everything else that is emitted (immediates, [,Y], [(p),Y], INC/DEC with no operand) is
@@ -197,7 +157,7 @@ Print Assumptions asm_sel_legal_shift_acc.
 Theorem asm_sel_rmw_exact : forall sch m e high m' sg em,
   rmw_mnemonic m = true ->
   asm_sel sch m e high = AEmit m' sg em ->
-  (resolve m' (shape_of (operand_of (e_op em))) (popnd_zp e) <> None <->
+  (resolve m' (shape_of (operand_of (e_op em))) (popnd_zp e (e_op em)) <> None <->
    let sh := shape_of (operand_of (e_op em)) in
    sh = ShMem \/ sh = ShMemX \/ sh = ShLabel \/ (sh = ShNone /\ shift_mnemonic m = true)).
 Proof.
@@ -207,21 +167,64 @@ Proof.
 Qed.
 Print Assumptions asm_sel_rmw_exact.
 
+(** with a temporary, a plain variable or an X-indexed variable, the emitted operand of a
+    read-modify-write mnemonic has an encoding unless it degenerated to an immediate *)
+Theorem asm_sel_legal_rmw : forall sch m e high m' sg em,
+  rmw_mnemonic m = true -> rmw_operand e = true ->
+  asm_sel sch m e high = AEmit m' sg em ->
+  shape_of (operand_of (e_op em)) <> ShImm ->
+  resolve m' (shape_of (operand_of (e_op em))) (popnd_zp e (e_op em)) <> None.
+Proof.
+  intros sch m e high m' sg em M O H Sh.
+  apply (asm_sel_rmw_exact _ _ _ _ _ _ _ M H). cbv zeta.
+  destruct e as [ | v | s | v eight off | v | v | s | l ]; try discriminate O.
+  - (* Tmp *) cbn in H. inv_emit H. left; reflexivity.
+  - (* Absolute *)
+    unfold asm_sel in H; cbv zeta in H.
+    destruct (v_type v), (is_zp v), (v_const v), eight, high; cbn -[port_offset Z.add Z.ltb] in H.
+    all: try discriminate H.
+    all: try (destruct (v_addr v) as [a|]; [destruct (255 <? _)%Z in H|]; cbn [negb] in H).
+    all: inv_emit H.
+    all: first [ left; reflexivity | (exfalso; apply Sh; reflexivity) ].
+  - (* AbsoluteX *)
+    unfold asm_sel in H; cbv zeta in H.
+    destruct (v_size v =? 1)%Z; destruct (v_type v), (is_zp v), (v_const v), high; cbn -[port_offset] in H.
+    all: try discriminate H.
+    all: destruct m; try discriminate M; cbn -[port_offset] in H.
+    all: try discriminate H.
+    all: inv_emit H.
+    all: first [ right; left; reflexivity | (exfalso; apply Sh; reflexivity) ].
+Qed.
+Print Assumptions asm_sel_legal_rmw.
+
+(** the accumulator form: shifts and rotates with no operand are encodable, INC/DEC are not *)
+Theorem asm_sel_legal_shift_acc : forall sch m high,
+  shift_mnemonic m = true ->
+  exists em, asm_sel sch m ENothing high = AEmit m false em /\
+             resolve m (shape_of (operand_of (e_op em))) (popnd_zp ENothing (e_op em)) = Some Acc.
+Proof.
+  intros sch m high M. destruct m; try discriminate M.
+  all: eexists; split; reflexivity.
+Qed.
+Print Assumptions asm_sel_legal_shift_acc.
+
+
 (** every Y-indexed cell is emitted and unencodable for a read-modify-write mnemonic *)
 Theorem asm_sel_rmw_y_never_legal : forall sch m v high m' sg em,
   rmw_mnemonic m = true ->
   asm_sel sch m (EAbsoluteY v) high = AEmit m' sg em ->
   shape_of (operand_of (e_op em)) <> ShImm ->
-  resolve m' (shape_of (operand_of (e_op em))) (popnd_zp (EAbsoluteY v)) = None.
+  resolve m' (shape_of (operand_of (e_op em))) (popnd_zp (EAbsoluteY v) (e_op em)) = None.
 Proof.
-  intros sch m [name ty c sgn mm sz] high m' sg em M H Sh.
-  unfold asm_sel in H; cbn [v_type v_mem v_const v_signed v_name v_size is_zp] in H.
-  destruct (sz =? 1)%Z; destruct ty, mm, c, high; cbn in H.
+  intros sch m v high m' sg em M H Sh.
+  set (zp := popnd_zp _ _); clearbody zp.
+  unfold asm_sel in H; cbv zeta in H.
+  destruct (v_size v =? 1)%Z; destruct (v_type v), (is_zp v), (v_const v), high; cbn -[port_offset] in H.
   all: try discriminate H.
-  all: destruct m; try discriminate M; cbn in H.
+  all: destruct m; try discriminate M; cbn -[port_offset] in H.
   all: try discriminate H.
   all: inv_emit H.
-  all: cbn in Sh; cbn.
+  all: destruct zp; cbn -[port_offset] in Sh; cbn -[port_offset].
   all: first [ reflexivity | (exfalso; apply Sh; reflexivity) ].
 Qed.
 Print Assumptions asm_sel_rmw_y_never_legal.
@@ -229,20 +232,20 @@ Print Assumptions asm_sel_rmw_y_never_legal.
 (** concrete cells: [INC arr,Y] on a zero-page char array, [ASL (p),Y] through a zero-page
     pointer.  [asm()] emits them with 3 resp. 2 bytes; the 6502 has neither. *)
 Example asm_sel_rmw_y_unencodable :
-  let arr := mkVar "arr" VChar false false MZeropage 8 in
-  let p := mkVar "p" VCharPtr false false MZeropage 1 in
+  let arr := mkVar "arr" VChar false false MZeropage 8 None in
+  let p := mkVar "p" VCharPtr false false MZeropage 1 None in
   (exists em,
      asm_sel SOther INC (EAbsoluteY arr) false = AEmit INC false em /\
      e_op em = PMem "arr" 0 IxY false /\
      print_popnd (e_op em) = "arr,Y"%string /\
      e_bytes em = 3%N /\
-     resolve INC (shape_of (operand_of (e_op em))) (popnd_zp (EAbsoluteY arr)) = None) /\
+     resolve INC (shape_of (operand_of (e_op em))) (popnd_zp (EAbsoluteY arr) (e_op em)) = None) /\
   (exists em,
      asm_sel SOther ASL (EAbsoluteY p) false = AEmit ASL false em /\
      e_op em = PInd "p" 0 /\
      print_popnd (e_op em) = "(p),Y"%string /\
      e_bytes em = 2%N /\
-     resolve ASL (shape_of (operand_of (e_op em))) (popnd_zp (EAbsoluteY p)) = None).
+     resolve ASL (shape_of (operand_of (e_op em))) (popnd_zp (EAbsoluteY p) (e_op em)) = None).
 Proof. vm_compute. split; eexists; repeat split. Qed.
 Print Assumptions asm_sel_rmw_y_unencodable.
 
@@ -251,6 +254,6 @@ Example asm_sel_inc_implied_unencodable :
   exists em,
     asm_sel SOther INC ENothing false = AEmit INC false em /\
     e_bytes em = 1%N /\
-    resolve INC (shape_of (operand_of (e_op em))) (popnd_zp ENothing) = None.
+    resolve INC (shape_of (operand_of (e_op em))) (popnd_zp ENothing (e_op em)) = None.
 Proof. vm_compute. eexists. repeat split. Qed.
 Print Assumptions asm_sel_inc_implied_unencodable.
